@@ -447,7 +447,9 @@ pub fn roll_case_long(ins: &'static [InT], max_len: usize, min_w: usize) -> impl
 }
 
 pub fn roll_case_long_of(ins: &'static [InT], max_len: usize, min_w: usize, classes: &'static [u8]) -> impl Strategy<Value = RollCase> {
-    (raw_series_of(2000usize..=max_len, classes), in_types(ins), 1usize..=64, any::<u8>(), any::<u16>()).prop_map(move |(rs, tin, w, mm, ms)| {
+    // windows up to 64 mostly; one case in five uses a window of several hundred elements (state that
+    // only goes wrong once hundreds of observations are inside one window)
+    (raw_series_of(2000usize..=max_len, classes), in_types(ins), prop_oneof![4 => 1usize..=64, 1 => 65usize..=700], any::<u8>(), any::<u16>()).prop_map(move |(rs, tin, w, mm, ms)| {
         let (x, class) = series_of(&rs, tin);
         let w = w.max(min_w);
         let mp = mp_of(w, mm, ms);
@@ -574,7 +576,7 @@ pub fn roll2_case(tier: Tier, max_quick: usize, max_thorough: usize, min_w: usiz
 }
 
 pub fn roll2_case_long(max_len: usize, min_w: usize) -> impl Strategy<Value = Roll2Case> {
-    (raw_pair(2000usize..=max_len), 2usize..=64, any::<u8>(), any::<u16>()).prop_map(move |(rp, w, mm, ms)| {
+    (raw_pair(2000usize..=max_len), prop_oneof![4 => 2usize..=64, 1 => 65usize..=700], any::<u8>(), any::<u16>()).prop_map(move |(rp, w, mm, ms)| {
         let (x, y, class) = pair_of(&rp);
         let w = w.max(min_w);
         let mp = mp_of(w, mm, ms);
